@@ -54,14 +54,14 @@ pub const NAME_POOL: [&str; 12] =
     ["alpha", "beta", "gamma", "delta", "eps", "zeta", "count2", "is_ok", "the_value", "x_1", "kappa_mu", "n0"];
 
 /// Weighted menu: tokens and owned types are over-represented.
-pub const WEIGHTED: [usize; 78] = [
+pub const WEIGHTED: [usize; 80] = [
     0, 1, 2, 3, 4, 5, 6, 7, 8, 9, 10, 11, 12, 13, 14, 15, 16, 17, 18, 19, 20, 21, 22, 23, 24, 25, 26, 27, 28, 29, 30, // once each
     22, 23, 24, 25, 26, 27, 28, 22, 24, 26, 28, // tokens
     17, 18, 19, 20, 21, 17, // owned
     12, 13, 14, 5, 8, 2, 3, 0, // zero-size, odd sizes, integers
     31, 32, 33, 31, 32, 31, 32, 33, // large token, vector of tokens, large plain data
     34, 35, 34, // cache-line alignment, 320 bytes
-    42, 42,
+    42, 42, 43, 43,
     36, 37, 37, 38, 39, 40, 40, 41, 41, // 1.3 KB token, floats, fn pointer, raw pointer, boxed closure, std-like user path
 ];
 
@@ -100,7 +100,7 @@ pub fn rhistory() -> impl Strategy<Value = RHistory> {
         prop_oneof![1 => Just(vec![]).boxed(), 9 => prop::collection::vec(block(false), 1..6).boxed()],
         strat_strategy(),
         0u8..4,
-        prop_oneof![10 => Just(0u8), 2 => Just(1u8), 1 => Just(2u8), 1 => Just(3u8), 1 => Just(4u8)],
+        prop_oneof![10 => Just(0u8), 2 => Just(1u8), 2 => Just(2u8), 1 => Just(3u8), 2 => Just(4u8)],
     )
         .prop_map(|(first, rest, final_strat, fragsel, profile)| {
             let mut reqs = first;
@@ -108,7 +108,8 @@ pub fn rhistory() -> impl Strategy<Value = RHistory> {
                 // widen the first variant: replay its additions until there are 17..=22 of them
                 let adds: Vec<RReq> = reqs.iter().filter(|r| matches!(r, RReq::Add { .. })).cloned().collect();
                 let close = reqs.pop();
-                let want = 17 + (adds.len() * 7 + rest.len() * 5) % 24;
+                let f = adds.len() * 7 + rest.len() * 5 + reqs.len();
+                let want = if f % 3 == 0 { 36 + f % 5 } else { 17 + f % 19 };
                 let mut k = 0usize;
                 while !adds.is_empty() && reqs.iter().filter(|r| matches!(r, RReq::Add { .. })).count() < want {
                     if let RReq::Add { menu, uninit, .. } = &adds[k % adds.len()] {
@@ -117,6 +118,18 @@ pub fn rhistory() -> impl Strategy<Value = RHistory> {
                     k += 1;
                 }
                 reqs.extend(close);
+                // then a step that removes most of them at once, last first (more than 32 removals when the
+                // variant is wide enough), and adds a couple of fields
+                let n_fields = reqs.iter().filter(|r| matches!(r, RReq::Add { .. })).count();
+                if n_fields >= 20 && f % 4 != 1 {
+                    for _ in 0..(n_fields - 3) {
+                        reqs.push(RReq::Remove { sel: 0xFFFF });
+                    }
+                    for a in adds.iter().take(2) {
+                        reqs.push(a.clone());
+                    }
+                    reqs.push(RReq::Close { strat: Strat::Simple });
+                }
             }
             for b in &rest {
                 reqs.extend(b.iter().cloned());
